@@ -1529,6 +1529,7 @@ M("SEED-C17-i", ["C17"], [("@patch", "seeded/C17-i/patch.diff", "")], ["C17/quot
 M("SEED-C18-i", ["C18"], [("@patch", "seeded/C18-i/patch.diff", "")], ["C18/status/table"])
 M("SEED-C19-i", ["C19"], [("@patch", "seeded/C19-i/patch.diff", "")], ["C19/value/UserProperty"])
 M("SEED-C20-i", ["C20"], [("@patch", "seeded/C20-i/patch.diff", "")], ["C20/len16/BinaryData"])
+M("C06-connack-walk-break", ["C06", "C14", "C10", "C19"], [("src/mqtt_client/session/handshake.rs", "max_qos = Some(QoS::try_from(max).map_err(|_| PeerError::InvalidPacket)?);", "max_qos = Some(QoS::try_from(max).map_err(|_| PeerError::InvalidPacket)?);\n                        break;")], ["C06/init/connack-walk-complete", "C14/adv/connack-walk-complete", "C10/const/connack-walk-complete", "C19/qos/connack-walk-complete"])
 M("C09-push-off-by-one", ["C09", "C12"], [("src/ser/mod.rs", "if self.buf.len().saturating_sub(self.index) < 1 {", "if self.buf.len().saturating_sub(self.index) <= 1 {")], ["C09/fit/exact/push", "C12/fit/exact/push"])
 M("C09-commit-off-by-one", ["C09"], [("src/ser/mod.rs", "if self.buf.len().saturating_sub(self.index) < len {", "if self.buf.len().saturating_sub(self.index) <= len {")], ["C09/fit/exact/commit"])
 M("C09-push-bytes-bound-ignores-index", ["C09"], [("src/ser/mod.rs", "if self.buf.len().saturating_sub(self.index) < data.len() {", "if self.buf.len() < data.len() {")], ["C09/fit/exact/push_bytes"])
